@@ -160,6 +160,19 @@ Fixpoint no_rewrite (loaded : list string) (h : list event) : bool :=
   | LoadRaw _ :: t => no_rewrite loaded t
   end.
 
+(* well-formed histories: every written content is a rectangular array of its stated shape, every request names a
+   detector shape with non-negative sides (what numpy / Geometry guarantee) *)
+Definition wf_content (c : content) : bool := let '(ay, ax, a) := c in wf_matb ay ax a.
+Definition wf_request (q : request) : bool := (0 <=? fst (q_shape q)) && (0 <=? snd (q_shape q)).
+
+Fixpoint wf_history (h : list event) : bool :=
+  match h with
+  | [] => true
+  | Write _ c :: t => wf_content c && wf_history t
+  | Load q :: t => wf_request q && wf_history t
+  | LoadRaw _ :: t => wf_history t
+  end.
+
 (* ---------------------------------------------------------------- case files *)
 
 Definition fit_of (algn : align_fn) (names : align_names) (c : content) (q : request) : option mat :=
